@@ -548,6 +548,10 @@ func (v *V) build(c px.Context) px.Value {
 		}
 		return types.WrapURI(u)
 	case "SemVer":
+		if v.S == "" {
+			// the absent version (of a TypeSet that is not yet initialized)
+			return types.WrapSemVer(nil)
+		}
 		return types.WrapSemVer(semver.MustParseVersion(string(v.S)))
 	case "SemVerRange":
 		return types.WrapSemVerRange(semver.MustParseVersionRange(string(v.S)))
